@@ -2,7 +2,7 @@
 (* Layer B against Layer A: for every program of the bounded generator, on   *)
 (* the reference world and two domain choices, the mechanism model yields    *)
 (* exactly the rows the denotation prescribes.                               *)
-EXTENDS GenQuery, EQLMech, RefWorld
+EXTENDS GenQuery, EQLMech2, RefWorld
 Doms == << <<1, 2, 3, 4>>, <<3, 1>>, <<2, 4, 1>> >>
 MQ(p, d1, d2) == [vars |-> [j \in 1..NV |-> [cls |-> "A", dom |-> IF j = 1 THEN Doms[d1] ELSE Doms[d2]]],
                   flats |-> <<>>, bound |-> <<>>, desc |-> p.desc, sel |-> p.sel, cond |-> p.cond]
@@ -10,4 +10,9 @@ MechEqualsSem ==
   done # <<>> => \A d1 \in 1..2, d2 \in 2..3 :
      LET q == MQ(done[1], d1, d2)
      IN MechSound(q, RefW) /\ MechComplete(q, RefW) /\ (NV = 1 => MechExact(q, RefW))
+\* stage B2: with the duplicate suppression of AND / ElseIf
+Mech2EqualsSem ==
+  done # <<>> => \A d1 \in 1..2, d2 \in 2..3 :
+     LET q == MQ(done[1], d1, d2)
+     IN Mech2Sound(q, RefW) /\ Mech2Complete(q, RefW) /\ Mech2NoDup(q, RefW)
 =============================================================================
